@@ -325,6 +325,36 @@ pub fn gen_case(rng: &mut Rng, kinds: &[&'static str]) -> Case {
                 target,
             }
         }
+        "pathsw" => {
+            // DELETE /p/{a}/{b}/{rest:.*}: the wildcard registered below the `paths`
+            // endpoint (PUT /p/{a}/{b}); n = 0 is the wildcard's empty match
+            let (a, ca) = gen_string(rng, true);
+            let (b, _) = gen_string(rng, true);
+            let n = rng.usize(4);
+            let mut t = b"/p/".to_vec();
+            t.extend(enc_seg(rng, &a));
+            t.push(b'/');
+            t.extend(enc_seg(rng, &b));
+            let mut segs = vec![];
+            for _ in 0..n {
+                let (s, _) = gen_string(rng, true);
+                t.push(b'/');
+                t.extend(enc_seg(rng, &s));
+                segs.push(s);
+            }
+            if n == 0 && rng.bool() {
+                t.push(b'/');
+            }
+            let target = String::from_utf8_lossy(&t).to_string();
+            Case {
+                kind,
+                class: format!("pathsw|n{n}|{ca}"),
+                req: base("DELETE", t),
+                uid,
+                expect: json!({"path": {"a": a, "b": b, "rest": segs}}),
+                target,
+            }
+        }
         "query" | "form" => {
             let (s, cs) = gen_string(rng, false);
             let (u, i, b, e) = (gen_u64(rng), gen_i64(rng), rng.bool(), gen_color(rng));
@@ -718,6 +748,95 @@ fn run_h2(seed: u64, addr: SocketAddr, kinds: &[&'static str], conns: usize, tas
     rep
 }
 
+/// Requests whose body is cut off mid-way (the client announced more than it sent and
+/// then half-closed or left): the value was never sent in full, so no handler may be
+/// given a prefix of it as if it were the whole value.  Observed two ways: a 2xx
+/// answer on the half-closed connection, and an H_DONE event (echo computed) in the
+/// server-side log for the request's uid.
+fn run_truncated(seed: u64, addr: SocketAddr, kinds: &[&'static str], n: usize, tag: &str) -> (Report, Vec<(u64, &'static str, String)>) {
+    let mut rep = Report::new("C09", "E2-echo", "");
+    let kinds: Vec<&'static str> = kinds.iter().copied().filter(|k| matches!(*k, "form" | "json" | "raw" | "stream" | "multi")).collect();
+    let mut sent = vec![];
+    if kinds.is_empty() {
+        return (rep, sent);
+    }
+    for i in 0..n {
+        let mut rng = Rng::derive(seed, "c09-trunc", 0, i as u64);
+        let mut case = gen_case(&mut rng, &kinds);
+        if case.req.body.len() < 2 {
+            continue;
+        }
+        let chunked = case.kind != "multi" && rng.chance(1, 3);
+        if chunked {
+            case.req.chunked = Some(vec![1 + rng.usize(64)]);
+        }
+        let wire = case.req.encode();
+        let Some(he) = crate::client::find(&wire, b"\r\n\r\n") else { continue };
+        let head_end = he + 4;
+        // the last byte that may be sent so that the body is still incomplete: with
+        // chunked framing the whole terminating "0\r\n\r\n" stays unsent
+        let limit = if case.kind == "multi" {
+            // a multipart value is complete once its closing delimiter has been seen (the
+            // parser rightly ignores what follows): keep the whole "\r\n--boundary--" unsent
+            match wire.windows(4).rposition(|w| w == b"\r\n--") {
+                Some(p) => p,
+                None => continue,
+            }
+        } else if chunked {
+            wire.len().saturating_sub(5)
+        } else {
+            wire.len() - 1
+        };
+        if limit <= head_end {
+            continue;
+        }
+        let cut = match rng.below(4) {
+            0 => head_end + 1,
+            1 => limit,
+            _ => head_end + 1 + rng.usize(limit - head_end),
+        }
+        .min(limit);
+        let how = if rng.chance(1, 2) { "half-close" } else { "close" };
+        let class = format!("truncated|{}|{}|{how}|{tag}", case.kind, if chunked { "chunked" } else { "content-length" });
+        let mut c = match Conn::connect(addr) {
+            Ok(c) => c,
+            Err(e) => {
+                rep.inconclusive(&format!("connect: {}", e.kind()));
+                continue;
+            }
+        };
+        if c.send(&wire[..cut]).is_err() {
+            rep.inconclusive("send failed (truncated request)");
+            continue;
+        }
+        sent.push((case.uid, case.kind, class.clone()));
+        // let the server consume what was sent before the stream ends
+        std::thread::sleep(Duration::from_micros(200 + rng.below(3000)));
+        if how == "half-close" {
+            c.shutdown_write();
+            match c.read_response_within(false, Duration::from_secs(10)) {
+                Ok(resp) => {
+                    rep.eval(format!("{class}|status{}", resp.status));
+                    if (200..300).contains(&resp.status) {
+                        rep.violate(
+                            format!("C09:{}:truncated-body-delivered-as-complete", case.kind),
+                            json!({"seed": seed, "index": i, "kind": case.kind, "framing": if chunked { "chunked" } else { "content-length" },
+                                "bytes_of_request_sent": cut, "bytes_of_request": wire.len(), "body_bytes_sent": cut - head_end,
+                                "status": resp.status, "body": String::from_utf8_lossy(&resp.body).chars().take(400).collect::<String>()}),
+                        );
+                    }
+                }
+                Err(ReadErr::Timeout(_)) => rep.inconclusive("no answer to a truncated request within 10 s"),
+                Err(_) => rep.eval(format!("{class}|closed-without-response")),
+            }
+        } else {
+            drop(c);
+            rep.eval(class);
+        }
+    }
+    (rep, sent)
+}
+
 pub struct Work {
     pub threads: usize,
     pub batches: usize,
@@ -872,9 +991,23 @@ pub fn run(seed: u64, w: &Work) -> Report {
             // the same value/encoding generators over HTTP/2: many streams multiplexed
             // on few connections
             rep.merge(run_h2(seed ^ workers as u64, addr, &w.kinds, 2, w.threads.min(32), (w.batches / 4).max(8), mode_tag));
+            let (trep, truncated) = run_truncated(seed ^ (workers as u64) << 8, addr, &w.kinds, w.batches.clamp(100, 600), mode_tag);
+            rep.merge(trep);
             let _ = srv.close();
             // concurrency actually observed on this server: sweep over ENTER/END
             let evs = log.snapshot();
+            {
+                let done: std::collections::HashSet<u64> = evs.iter().filter(|e| e.kind == "H_DONE").map(|e| e.uid).collect();
+                for (uid, kind, class) in &truncated {
+                    if done.contains(uid) {
+                        rep.violate(
+                            format!("C09:{kind}:truncated-body-delivered-as-complete"),
+                            json!({"seed": seed, "uid": uid, "class": class, "observed": "H_DONE event: the handler computed its echo from a body the client never finished sending"}),
+                        );
+                    }
+                }
+                rep.count("truncated_requests", truncated.len() as u64);
+            }
             let mut cur = 0i64;
             let mut enters = std::collections::HashMap::new();
             for e in &evs {
